@@ -1239,6 +1239,11 @@ func (mf *mergeFn) nonPresenceCond(cd Cond) string {
 		}
 		if s, ok := constString(x.Y); ok {
 			if s == "" {
+				// "" is how a plain string field says "not set"; the Value of an optional wrapper is not:
+				// there presence is the wrapper itself, and an explicitly set empty string is a value
+				if a := mf.m.ap(x.X); len(a.Path) >= 2 && a.Path[len(a.Path)-1] == "Value" {
+					return "the optional field's value being compared with \"\" (presence is the wrapper being non-nil)"
+				}
 				return ""
 			}
 			return fmt.Sprintf("a comparison with the constant %q", s)
